@@ -11,10 +11,18 @@
 //!           (`if let Ok(d) = h.dup() { .. }`), which takes one scheduling step; `-` = empty program
 //!   sched = comma separated thread ids, `-` = empty
 //!
-//! Real OS threads execute the real `UnixFd` methods. Every atomic action of unixfd.rs is preceded
-//! by `verif_hooks::point(..)`; a controlled thread blocks there until the controller grants it
-//! one step, performs the action and runs on to its next point (or to the end of its program).
-//! So one schedule entry = one atomic action = one `step` of coq/Fd/Concurrent.v. Entries naming a
+//! Real OS threads execute the real `UnixFd` methods. Under the feature `verif_hooks` the atomic
+//! cell of unixfd.rs is `verif_hooks::atomic_shim::AtomicI32`: every load / store /
+//! compare_exchange / swap / fetch_* on it is itself a point named after the operation
+//! (`atomic.load`, `atomic.compare_exchange`, ...), and dup/close, the Arc decrement and the Arc
+//! increment have a point in front of them. A controlled thread blocks at each of these until the
+//! controller grants it one step, performs the one shared-memory access or system call and runs on
+//! to its next point (or to the end of its program). So one schedule entry = one atomic operation
+//! = one `step` of coq/Fd/Concurrent.v, and a read-modify-write that is not ONE atomic operation
+//! is a different, longer sequence that the schedules interleave. The label points `take.load`,
+//! `take.cas`, `get.load` in unixfd.rs do not block when the atomic shim is present.
+//! (Legacy mode, `--mode legacy` or when the probe finds no atomic shim in the crate: the label
+//! points block instead and "one point = one atomic operation" is assumed, not enforced.) Entries naming a
 //! finished or non-existing thread do nothing. When the schedule is exhausted thread 0 is run
 //! until it has finished, then thread 1, ... (`completion` in the model).
 //! `dup`/`close` go to a simulated descriptor table through `verif_hooks::nix_shim`, so nothing
@@ -99,9 +107,25 @@ fn uncontrolled<R>(f: impl FnOnce() -> R) -> R {
     r
 }
 
+/// true = the crate's atomic cell is the shim (every shared-memory access is a point)
+static SHIM: std::sync::atomic::AtomicBool = std::sync::atomic::AtomicBool::new(false);
+/// points seen by the probe
+static PROBE: Mutex<Vec<&'static str>> = Mutex::new(Vec::new());
+
+fn is_label(name: &str) -> bool {
+    matches!(name, "take.load" | "take.cas" | "get.load")
+}
+
 fn on_point(name: &'static str) {
-    let Some((tid, case)) = ctx() else { return };
+    let Some((tid, case)) = ctx() else {
+        PROBE.lock().unwrap().push(name);
+        return;
+    };
     if tid == UNCONTROLLED {
+        return;
+    }
+    // with the atomic shim the labels in front of the atomics are only labels
+    if SHIM.load(std::sync::atomic::Ordering::SeqCst) && is_label(name) {
         return;
     }
     let mut s = case.sched.lock().unwrap();
@@ -449,9 +473,122 @@ fn run_case(line: &str) -> String {
     line
 }
 
+/// does the crate under test route its atomic cell through verif_hooks::atomic_shim?
+fn probe_shim() -> bool {
+    PROBE.lock().unwrap().clear();
+    let fd = UnixFd::new(0);
+    let _ = fd.get_raw_fd();
+    let _ = fd.take_raw_fd(); // taken: the library does not close it
+    let seen = PROBE.lock().unwrap().clone();
+    seen.iter().any(|n| n.starts_with("atomic."))
+}
+
+/// A plain stress stream, no controller (a TEST, not part of the proof): `rounds` times two real
+/// threads spin until released and then call take_raw_fd on clones of a fresh UnixFd; a third
+/// clone is dropped afterwards. Judged directly: at most one Some per round, it is the
+/// descriptor, and the (simulated) close is called iff nobody took it. Prints
+/// `rounds=.. double_take=.. wrong_value=.. bad_close=..`.
+fn stress(rounds: usize) -> String {
+    use std::sync::atomic::{AtomicUsize, Ordering};
+    verif_hooks::set_controller(None);
+    let closes = Arc::new(AtomicUsize::new(0));
+    let c2 = closes.clone();
+    verif_hooks::nix_shim::unistd::set_close(Some(Arc::new(move |_fd| {
+        c2.fetch_add(1, Ordering::SeqCst);
+        Ok(())
+    })));
+    struct Slot {
+        round: AtomicUsize,
+        fd: Mutex<Option<UnixFd>>,
+        got: Mutex<Option<Option<i32>>>,
+        done: AtomicUsize,
+    }
+    let slots: Vec<Arc<Slot>> = (0..2)
+        .map(|_| Arc::new(Slot { round: AtomicUsize::new(0), fd: Mutex::new(None), got: Mutex::new(None), done: AtomicUsize::new(0) }))
+        .collect();
+    let go = Arc::new(AtomicUsize::new(0));
+    let mut joins = Vec::new();
+    for s in &slots {
+        let s = s.clone();
+        let go = go.clone();
+        joins.push(std::thread::spawn(move || {
+            let mut r = 0usize;
+            loop {
+                r += 1;
+                while s.round.load(Ordering::Acquire) < r {
+                    std::hint::spin_loop();
+                }
+                let fd = s.fd.lock().unwrap().take();
+                let Some(fd) = fd else { return };
+                while go.load(Ordering::Acquire) < r {
+                    std::hint::spin_loop();
+                }
+                let v = fd.take_raw_fd();
+                *s.got.lock().unwrap() = Some(v);
+                s.done.store(r, Ordering::Release);
+            }
+        }));
+    }
+    let (mut double_take, mut wrong_value, mut bad_close) = (0usize, 0usize, 0usize);
+    for r in 1..=rounds {
+        let fdnum = 1000 + (r % 7) as i32;
+        let before = closes.load(Ordering::SeqCst);
+        let orig = UnixFd::new(fdnum);
+        for s in &slots {
+            *s.fd.lock().unwrap() = Some(orig.clone());
+            s.round.store(r, Ordering::Release);
+        }
+        go.store(r, Ordering::Release);
+        for s in &slots {
+            while s.done.load(Ordering::Acquire) < r {
+                std::hint::spin_loop();
+            }
+        }
+        let got: Vec<Option<i32>> = slots.iter().map(|s| s.got.lock().unwrap().take().unwrap()).collect();
+        drop(orig);
+        let some = got.iter().filter(|g| g.is_some()).count();
+        if some > 1 {
+            double_take += 1;
+        }
+        if got.iter().any(|g| matches!(g, Some(v) if *v != fdnum)) {
+            wrong_value += 1;
+        }
+        let closed = closes.load(Ordering::SeqCst) - before;
+        if (some >= 1 && closed != 0) || (some == 0 && closed != 1) {
+            bad_close += 1;
+        }
+    }
+    for s in &slots {
+        *s.fd.lock().unwrap() = None;
+        s.round.store(rounds + 1, Ordering::Release);
+    }
+    for j in joins {
+        let _ = j.join();
+    }
+    format!("rounds={} double_take={} wrong_value={} bad_close={}", rounds, double_take, wrong_value, bad_close)
+}
+
 fn main() {
+    let args: Vec<String> = std::env::args().collect();
     verif_hooks::set_controller(Some(Arc::new(on_point)));
     verif_hooks::nix_shim::unistd::set_dup(Some(Arc::new(sim_dup)));
     verif_hooks::nix_shim::unistd::set_close(Some(Arc::new(sim_close)));
+    let present = probe_shim();
+    if args.iter().any(|a| a == "--probe") {
+        println!("{}", if present { "shim" } else { "legacy" });
+        return;
+    }
+    if let Some(k) = args.iter().position(|a| a == "--stress") {
+        let n: usize = args.get(k + 1).and_then(|x| x.parse().ok()).unwrap_or(100000);
+        println!("{}", stress(n));
+        return;
+    }
+    let mode = args.iter().position(|a| a == "--mode").and_then(|k| args.get(k + 1).cloned());
+    let shim = match mode.as_deref() {
+        Some("legacy") => false,
+        Some("shim") => true,
+        _ => present,
+    };
+    SHIM.store(shim, std::sync::atomic::Ordering::SeqCst);
     rbverif::line_loop(|line| run_case(line));
 }
